@@ -14,6 +14,7 @@ import (
 
 	"github.com/influxdata/influxdb/v2/models"
 	"github.com/influxdata/influxdb/v2/pkg/verifhook"
+	"github.com/influxdata/influxdb/v2/tsdb/engine/tsm1"
 	"pgregory.net/rapid"
 
 	"verifharness/internal/ev"
@@ -150,6 +151,10 @@ func (mc *Machine) Close() {
 	verifhook.Set(nil)
 	if mc.F != nil {
 		mc.F.Close()
+	}
+	if os.Getenv("VERIF_KEEP_SCRATCH") != "" {
+		fmt.Printf("VERIF_KEEP_SCRATCH: %v\n", mc.roots)
+		return
 	}
 	for _, r := range mc.roots {
 		os.RemoveAll(r)
@@ -571,6 +576,30 @@ func (mc *Machine) TornWAL(before *model.Store, hiddenBefore map[string]hiddenPo
 	}
 }
 
+// diagnoseImage describes where a key stands on a recovered image (failure reports only).
+func (mc *Machine) diagnoseImage(nf *fix.ShardFix, series, field string) string {
+	var sb strings.Builder
+	if e, err := nf.Engine(); err == nil {
+		name, _ := models.ParseKeyBytes([]byte(series))
+		mf := e.MeasurementFields(name)
+		if fld := mf.Field(field); fld != nil {
+			fmt.Fprintf(&sb, "field known (type %v); ", fld.Type)
+		} else {
+			fmt.Fprintf(&sb, "field NOT in the shard's field set (known fields of %s: %v); ", name, mf.FieldKeys())
+		}
+		key := tsm1.SeriesFieldKeyBytes(series, field)
+		fmt.Fprintf(&sb, "cache values: %d; ", e.Cache.Values(key).Len())
+	}
+	blocks, err := fix.KeyBlocks(nf.DataDir(), tsm1.SeriesFieldKeyBytes(series, field), models.MinNanoTime, true)
+	fmt.Fprintf(&sb, "tsm blocks not fully tombstoned: %v (%v); ", blocks, err)
+	m, _ := filepath.Glob(filepath.Join(nf.DataDir(), "*"))
+	for i := range m {
+		m[i] = filepath.Base(m[i])
+	}
+	fmt.Fprintf(&sb, "files: %v", m)
+	return sb.String()
+}
+
 // NewestWALSegment returns the newest WAL segment file and its size.
 func (mc *Machine) NewestWALSegment() (string, int64) {
 	m, _ := filepath.Glob(filepath.Join(mc.F.WALDir(), "_*.wal"))
@@ -589,6 +618,12 @@ func (mc *Machine) NewestWALSegment() (string, int64) {
 func (mc *Machine) recoverOn(image string, before, after *model.Store, what string) {
 	old := mc.F
 	nf := &fix.ShardFix{Root: image, Tweak: old.Tweak}
+	if os.Getenv("VERIF_KEEP_SCRATCH") != "" {
+		for _, n := range []string{"fields.idx", "fields.idxl"} {
+			b, err := os.ReadFile(filepath.Join(nf.DataDir(), n))
+			fmt.Printf("IMAGE %s %s: %v %q\n", what, n, err, b)
+		}
+	}
 	if err := nf.Open(); err != nil {
 		old.Close()
 		mc.F = nil
@@ -655,8 +690,10 @@ func (mc *Machine) recoverOn(image string, before, after *model.Store, what stri
 					}
 					continue
 				}
-				if h, ok := mc.Hidden[pkey(s, f.Name, t)]; ok && gok && !bok && !aok && h.v.Equal(gv) {
-					// a point left behind by an earlier interrupted delete became visible again
+				if h, ok := mc.Hidden[pkey(s, f.Name, t)]; ok && gok && !bok && h.v.Equal(gv) {
+					// a point left behind by an earlier interrupted delete became visible again (also
+					// when the interrupted step would have overwritten it: the step created the field
+					// or series again, its own value did not reach the image)
 					rec.Write(s, f.Name, t, gv)
 					delete(mc.Hidden, pkey(s, f.Name, t))
 					mc.Rec.Class("read:hidden-point-of-interrupted-delete-visible-again")
@@ -672,8 +709,8 @@ func (mc *Machine) recoverOn(image string, before, after *model.Store, what stri
 				case gok:
 					key = "wrong-value-after-recovery"
 				}
-				mc.fail(key, fmt.Sprintf("%s: %s %s @%d: recovered=%v(%v) acknowledged-before=%v(%v) if-step-completed=%v(%v)\n recovered: %s\n before:    %s\n after:     %s",
-					what, s, f.Name, t, gv, gok, bv, bok, av, aok, model.Render(got), model.Render(b), model.Render(a)))
+				mc.fail(key, fmt.Sprintf("%s: %s %s @%d: recovered=%v(%v) acknowledged-before=%v(%v) if-step-completed=%v(%v)\n recovered: %s\n before:    %s\n after:     %s\n image:     %s",
+					what, s, f.Name, t, gv, gok, bv, bok, av, aok, model.Render(got), model.Render(b), model.Render(a), mc.diagnoseImage(nf, s, f.Name)))
 			}
 		}
 	}
